@@ -358,11 +358,17 @@ def hunt2_rules(chk, repo, hf):
                           "only TooManyMembersError is mapped: a frame with RSV1 whose payload is not deflate data raises the backend's zlib.error out of the reader - the application gets ERROR without a close code and the Close frame on the wire says 1000 (normal closure)")
     # ---- C12.qsize: every queued message weighs something in the flow-control account ----------------------------------------------------------
     weights = {}
-    for name in ("feed_data", "_read_from_buffer"):
+    for name, op in (("feed_data", ast.Add), ("_read_from_buffer", ast.Sub)):
         m = dq.methods[name]
         for a in ast.walk(m.node):
-            if isinstance(a, ast.Assign) and norm.raw(a.targets[0]) == "size":
-                weights[name] = a
+            # the amount by which self._size moves: `self._size += <w>` with <w> written in place or through a local
+            if isinstance(a, ast.AugAssign) and norm.raw(a.target) == "self._size" and isinstance(a.op, op):
+                val = a.value
+                if isinstance(val, ast.Name):  # one step through a local (`size = data.size or 1; self._size += size`)
+                    ds = [v for _d, v in norm.fn_defs(m.node).defs.get(val.id, []) if v is not None]
+                    val = ds[0] if len(ds) == 1 else val
+                weights[name] = ast.Assign(targets=[a.target], value=val, lineno=a.lineno)
+                weights[name].fn, weights[name].mod = getattr(a, "fn", None), getattr(a, "mod", None)
     if set(weights) != {"feed_data", "_read_from_buffer"}:
         chk.analysis_error("C12.qsize: per-message weight (`size = ...`) not found in WebSocketDataQueue.feed_data / _read_from_buffer")
     else:
@@ -370,7 +376,7 @@ def hunt2_rules(chk, repo, hf):
         if w["feed_data"] != w["_read_from_buffer"]:
             chk.violation("C12.qsize", weights["_read_from_buffer"], K.short(weights["_read_from_buffer"]), w["feed_data"], "what is added per queued message differs from what is subtracted when it is read: the flow-control account drifts")
         elif w["feed_data"] == "data.size":
-            chk.violation("C12.qsize", weights["feed_data"], "size = data.size", "size = data.size or 1",
+            chk.violation("C12.qsize", weights["feed_data"], "self._size += data.size", "self._size += data.size or 1",
                           "the queue counts payload bytes only: zero-length TEXT/BINARY/PING/PONG frames never reach the pause threshold, two million of them (4 MB on the wire) are accepted and queued, retaining 177 MB, with the transport never paused")
         else:
             chk.ok("C12.qsize", weights["feed_data"], f"every queued message counts at least one unit towards the pause threshold (`{w['feed_data']}`), symmetrically on read")
